@@ -323,7 +323,7 @@ fn gen_comment(src: &mut Src) -> String {
             let c = stars(src);
             format!("/*{a}{body}{b} {body}{c}*/")
         }
-        4 => ["/**/", "/***/", "/****/", "/*****/", "/******/", "/** doc **/", "/* note **/", "/* a * b ** c ***/", "/*\n * x\n **/"][src.below(9)].to_string(),
+        4 => ["/**/", "/***/", "/****/", "/*****/", "/******/", "/** doc **/", "/* note **/", "/* a * b ** c ***/", "/*\n * x\n **/", "/* lib/*/std.inc */ */", "/*/*/*/ */ */ */", "/* /*/ */ x */"][src.below(12)].to_string(),
         _ => format!("//{body}*/ /* {body}\n"),
     }
 }
@@ -437,7 +437,7 @@ pub fn gen_malformed(src: &mut Src, allow_swallow: bool) -> Lexeme {
             l
         }
         2 => {
-            let body = ["", " x ", " /* nested */ y", "/* /*", "*"][src.below(5)];
+            let body = ["", " x ", " /* nested */ y", "/* /*", "*", " lib/*/std.inc */ y", "/*/", " a /*/ b */", "/*/ */ /*/"][src.below(9)];
             let mut l = lx(&format!("/*{body}"), "COMMENT", Cls::Punct(' '), "unterminated-block-comment");
             l.swallows = true;
             l.expect.clear();
